@@ -238,6 +238,28 @@ def laws():
         res += [canon((a - b).doit()) for a, b in zip(comps(O.curl_operator(fld)), curl_w)]
         return Case(res)
 
+    # ONE non-zero component that depends on a SUBSET of the coordinates, the others literally zero (or missing): the shapes a
+    # shortcut such as "a radial field that does not depend on the angles is irrotational" keys on (true in spherical
+    # coordinates, false in cylindrical ones, where z is not an angle)
+    SUBSETS = [(0,), (1,), (2,), (0, 1), (0, 2), (1, 2), (0, 1, 2)]
+
+    @law("divergence_operator,curl_operator/equal-the-textbook-formulas-for-one-non-zero-component-depending-on-a-subset-of-coordinates",
+         [(k, i, sub, full) for k in ("cyl", "sph") for i in range(3) for sub in SUBSETS for full in (True, False)],
+         ["operators.divergence_operator", "operators.curl_operator"])
+    def _(s, g):
+        k, i, sub, full = s
+        cur = CS(kinds[k])
+        q = list(cur.coord_system.base_scalars())
+        comp = g.fun("G", [q[j] for j in sub])
+        A = [sp.S.Zero] * 3
+        A[i] = comp
+        given = A if full else A[:i + 1]
+        fld = VectorField(list(given), cur)
+        div_w, curl_w = textbook(k, A, q)
+        res = [canon((O.divergence_operator(fld) - div_w).doit())]
+        res += [canon((a - b).doit()) for a, b in zip(comps(O.curl_operator(fld)), curl_w)]
+        return Case(res)
+
     return out
 
 
